@@ -19,13 +19,13 @@ pub const SPEC: PropSpec = PropSpec {
     rule: "E1 runs (1-3 uplinks through the real handshake, real handle_uplink_packet arm) in which an arbitrary-bytes generator injects uplink datagrams: EXHAUSTIVE over all 65536 two-byte type codes x lengths {2,3,9,10,19,20,38,258,1500} with PRNG bodies (sharded over the cases of a run), plus random lengths 0..1500, plus mutated valid frames (SRT ACK, SRT NAK with singles / ranges up to and beyond the 1000-entry cap, SRTLA ACK lists of 0..374 entries naming held, unheld and duplicate sequence numbers, keepalives with every timestamp class, REG2 full / short / foreign id, REG3, REG_ERR, REG_NGP, truncations of all of them), before and after the first client datagram, on registering / warming / live / awaiting-echo / silent / disconnected links, interleaved with client data (so sequences are held), housekeeping arms and sim-receiver replies. Oracle per injected datagram: reference classifier (len >= 2 and type in {REG2, REG3, REG_ERR, REG_NGP, SRTLA ACK, keepalive} = internal): client known and not internal => the client socket receives >= 1 datagram, all byte-identical to it; otherwise nothing; last_received = now for every non-registration datagram of >= 2 bytes; the delivery-proof stamp of a link moves only if that link lost a held sequence to an SRTLA ACK entry of this datagram or answered an outstanding keepalive probe (>= 10 bytes, 0 < now - ts <= 10 s); no panic (overflow checks on). Non-trivial = every injection; distinct = distinct (type code, length class, client known, link state) tuples.",
     assumptions: &["the sim SRT client reads the relayed bytes from a real loopback socket; loopback delivery is synchronous in practice (a missed relay would be re-checked against late frames only by re-running)"],
     floors: &[
-        ("c09.injected", 600_000, 20_000_000),
+        ("c09.injected", 600_000, 12_000_000),
         ("c09.exhaustive_type_codes_x_lengths", 589_824, 589_824),
         ("c09.relayed_compared", 10_000, 300_000),
         ("c09.internal_not_relayed", 10_000, 300_000),
-        ("c09.liveness_stamped", 100_000, 3_000_000),
+        ("c09.liveness_stamped", 100_000, 8_000_000),
         ("c09.proof.earned_ack", 500, 15_000),
-        ("c09.proof.answered_keepalive", 200, 6_000),
+        ("c09.proof.answered_keepalive", 200, 3_000),
         ("c09.before_client_known", 5_000, 150_000),
         ("c09.nak_beyond_cap", 50, 1_500),
         ("c09.srtla_ack_lists", 2_000, 60_000),
@@ -124,7 +124,7 @@ fn mutated_valid(rng: &mut Rng, d: &Driver, rep: &mut Report) -> Vec<u8> {
     v
 }
 
-pub fn run_case(case: u64, total_cases: u64, rng: &mut Rng, rep: &mut Report) {
+pub fn run_case(case: u64, total_cases: u64, extra: usize, rng: &mut Rng, rep: &mut Report) {
     let sc = ConfigSnapshot { mode: if rng.chance(1, 2) { SchedulingMode::Classic } else { SchedulingMode::Enhanced }, ..ConfigSnapshot::default() };
     let opts = StreamOpts { n_links: 1 + rng.usize_below(3), cfg: sc, ticks: 0, probing: rng.chance(1, 2), faults: Faults::None, retransmit_pct: 5, control_pct: 5, critical_windows: false, big_jumps: false, initial_windows: None, loss_permille: 0, stall_min_in_flight_small: false, echo_fuzz: false, rate_pct: 100, short_sends: false };
     let mut d = Driver::new(opts, rng);
@@ -176,7 +176,7 @@ pub fn run_case(case: u64, total_cases: u64, rng: &mut Rng, rep: &mut Report) {
         inject(&mut d, rng, rep, &mut mons, &mut none, &mut sample);
     }
     // phase B: streaming with injections
-    let budget = exhaustive.len() + 1500;
+    let budget = exhaustive.len() + extra;
     for step in 0..budget {
         if step % 7 == 0 {
             let dt = *rng.pick(&[0u64, 1, 5, 20, 100]);
@@ -213,7 +213,8 @@ pub fn run(cfg: &RunCfg) -> Report {
     // the exhaustive stratum is sharded over the first 64 cases (power of two so that 65536 divides evenly)
     let shards: u64 = 64;
     let cases = cfg.cases(64, 2048).max(shards);
-    let mut rep = run_cases(cfg, 0, cases, Duration::from_secs(3600), |c, rng, rep| run_case(c, shards, rng, rep));
+    let extra = if cfg.tier == crate::report::Tier::Thorough && cfg.lane.is_none() { 8000 } else { 1500 };
+    let mut rep = run_cases(cfg, 0, cases, Duration::from_secs(3600), |c, rng, rep| run_case(c, shards, extra, rng, rep));
     if rep.get("c09.exhaustive_type_codes_x_lengths") == 65_536 * 9 {
         rep.notes.insert("exhaustive_stratum".into(), serde_json::json!("all 65536 type codes x 9 lengths were injected in this run"));
     }
